@@ -8,6 +8,7 @@ import (
 	"net/url"
 
 	"MODULE/restli"
+	"MODULE/restlicodec"
 	"MODULE/restlidata/generated/com/linkedin/restli/common"
 	verif "MODULE/zzverif"
 	"MODULE/zzvt/vt"
@@ -241,4 +242,8 @@ func registerAll(s restli.Server, m *mockThings) {
 	things.RegisterResource(s, m)
 	parts.RegisterResource(s, &mockParts{m})
 	info.RegisterResource(s, &mockInfo{m})
+}
+
+func c06DecodeSearch(query string) (*things.FindBySearchParams, error) {
+	return restlicodec.UnmarshalQueryParamsDecoder[*things.FindBySearchParams](query)
 }
